@@ -26,10 +26,18 @@ Print Assumptions C24_refines_partial.
 (* non-vacuity: a 12-step history with nesting, a refused duplicate, a failing removal, removals at
    a leaf and at the root, and a manager, lies outside the known classes *)
 Theorem C24_partial_nonvacuous : ~ Known_C24 h_clean /\
-  spec_results h_clean = [RBool true; RBool true; RBool false; RErr; RBool true; RBool true; RBool true;
-                          RBool false; RBool true; RBool false; RBool true; RBool true].
+  spec_results h_clean = [RBool true; RBool true; RBool false; RErr; RDone; RBool true; RBool true;
+                          RDone; RBool true; RDone; RBool true; RDone].
 Proof. exact h_clean_ok. Qed.
 Print Assumptions C24_partial_nonvacuous.
+
+(* beyond the property text (the flag of `remove` is left open by the flat map): outside the known
+   classes it tells whether nothing at all is left registered at the path *)
+Theorem C24_remove_flag_partial : forall h : list op, ~ Known_C24 h ->
+  forall pre p k post b, h = pre ++ Rm p k :: post ->
+    snd (fst (remove (model_state pre) p (ik k))) = Ok b -> b = bare (sdel (spec_state pre) p k) p.
+Proof. exact remove_flag_partial. Qed.
+Print Assumptions C24_remove_flag_partial.
 
 (* known finding 1: at("/", I1); remove::<I1>("/")  panics *)
 Theorem C24_root_remove_refuted :
@@ -49,13 +57,13 @@ Theorem C24_subtree_refuted :
 Proof. exact subtree_refuted. Qed.
 Print Assumptions C24_subtree_refuted.
 
-(* known finding 3: at(/a, I1); at(/a, ObjectManager); remove::<I1>(/a)  takes the manager away
-   and reports the object destroyed *)
+(* known finding 3: at(/a, I1); at(/a, ObjectManager); remove::<I1>(/a)  takes the manager away *)
 Theorem C24_manager_refuted :
   let h := [At [B "a"] K1 1; At [B "a"] KM 2; Rm [B "a"] K1] in
   sget (spec_state h) [B "a"] KM = Some 2%N /\
   ok_opt (lookup (model_state h) [B "a"] (ik KM)) = None /\
-  model_results h <> spec_results h /\
+  ok_opt (call (model_state h) [B "a"] (ik KM)) = None /\
+  seen_at (model_state h) [B "a"] (ik KM) = false /\
   first_flag [] h = Some ManagerDropped.
 Proof. exact manager_refuted. Qed.
 Print Assumptions C24_manager_refuted.
